@@ -1,5 +1,105 @@
-import DmlcModel.RecordIO.Model
+/-
+C01 — RecordIO write/read round-trip is the identity on record sequences.
+Property theorems only; helper lemmas live in DmlcModel/RecordIO/{Lemmas,RoundTrip}.lean.
+-/
+import DmlcModel.RecordIO.RoundTrip
+
 namespace DmlcModel.Props.C01
-open DmlcModel DmlcModel.RecordIO
-theorem C01_stub : (writeRecord []).2 = 0 := by decide
+open DmlcModel DmlcModel.RecordIO DmlcModel.Gen.RecordIO
+
+/-- one record followed by arbitrary further stream content `s`: `NextRecord` returns exactly the
+record and leaves exactly `s` (so streams can be read back to back). -/
+theorem C01_roundtrip_suffix (r s : Bytes) (h : r.length < 2 ^ 29) :
+    nextRecord ((writeRecord r).1 ++ s) = Rd.record r s := by
+  unfold nextRecord writeRecord
+  have hl := (writeGo_length _ 0 0 [] r (winv_init r h)).1
+  have := writeGo_read _ 0 0 [] r (winv_init r h)
+    (((writeGo (u32 r.length) 0 0 [] r).1 ++ s).length + 1) [] s
+    (by simp only [List.length_append, hl]; omega)
+  simpa using this
+
+/-- the reader reports a clean end of stream exactly on the empty remainder -/
+theorem C01_clean_eos : nextRecord [] = Rd.eos := by decide
+
+/-- every encoded record occupies at least 8 bytes (used for the fuel of `readAll`) -/
+theorem C01_record_image_ge8 (r : Bytes) (h : r.length < 2 ^ 29) : 8 ≤ (writeRecord r).1.length := by
+  have := (writeGo_length _ 0 0 [] r (winv_init r h)).1
+  unfold writeRecord; omega
+
+theorem readAllFuel_writeAll (rs : List Bytes) (h : ∀ r ∈ rs, r.length < 2 ^ 29) :
+    ∀ fuel, rs.length < fuel → readAllFuel fuel (writeAll rs) = some rs := by
+  induction rs with
+  | nil =>
+    intro fuel hf
+    obtain ⟨k, rfl⟩ : ∃ k, fuel = k + 1 := ⟨fuel - 1, by simp at hf; omega⟩
+    simp [readAllFuel, writeAll, C01_clean_eos]
+  | cons r rs ih =>
+    intro fuel hf
+    obtain ⟨k, rfl⟩ : ∃ k, fuel = k + 1 := ⟨fuel - 1, by simp at hf; omega⟩
+    have hr : r.length < 2 ^ 29 := h r (by simp)
+    simp only [readAllFuel, writeAll, C01_roundtrip_suffix r _ hr]
+    rw [ih (fun x hx => h x (by simp [hx])) k (by simp at hf; omega)]
+    rfl
+
+theorem writeAll_length_ge (rs : List Bytes) (h : ∀ r ∈ rs, r.length < 2 ^ 29) :
+    8 * rs.length ≤ (writeAll rs).length := by
+  induction rs with
+  | nil => simp [writeAll]
+  | cons r rs ih =>
+    have := C01_record_image_ge8 r (h r (by simp))
+    have := ih (fun x hx => h x (by simp [hx]))
+    simp only [writeAll, List.length_append, List.length_cons]; omega
+
+/-- **C01, main statement.** Any sequence of records (each shorter than 2^29 bytes, any content)
+written by `WriteRecord` is returned by `NextRecord` as the identical sequence, followed by a clean
+end of stream. -/
+theorem C01_roundtrip (rs : List Bytes) (h : ∀ r ∈ rs, r.length < 2 ^ 29) :
+    readAll (writeAll rs) = some rs := by
+  unfold readAll
+  exact readAllFuel_writeAll rs h _ (by have := writeAll_length_ge rs h; omega)
+
+/-- the number of bytes a record occupies: 8 per part, the payload minus the elided magic words,
+padding to a multiple of 4 -/
+theorem C01_record_image_length (r : Bytes) (h : r.length < 2 ^ 29) :
+    (writeRecord r).1.length = 8 + 4 * alignedMagicCount r + (r.length + 3) / 4 * 4 := by
+  have hw := writeGo_length _ 0 0 [] r (winv_init r h)
+  unfold writeRecord
+  rw [hw.1, hw.2, u32_length r h]
+  simp only [List.length_nil]; omega
+
+/-- the total length of the stream is always a multiple of 4 -/
+theorem C01_len_mod4 (rs : List Bytes) (h : ∀ r ∈ rs, r.length < 2 ^ 29) :
+    (writeAll rs).length % 4 = 0 := by
+  induction rs with
+  | nil => rfl
+  | cons r rs ih =>
+    have h1 := C01_record_image_length r (h r (by simp))
+    have h2 := ih (fun x hx => h x (by simp [hx]))
+    simp only [writeAll, List.length_append]; omega
+
+/-- `except_counter()` grows by the number of 4-byte-aligned magic words of the record -/
+theorem C01_except_counter (r : Bytes) (h : r.length < 2 ^ 29) :
+    (writeRecord r).2 = alignedMagicCount r :=
+  (writeGo_length _ 0 0 [] r (winv_init r h)).2
+
+/-- records of 2^29 bytes or more are rejected by the `CHECK`, all others accepted -/
+theorem C01_reject_large (r : Bytes) :
+    writeRecordE r = .error .check ↔ 2 ^ 29 ≤ r.length := by
+  unfold writeRecordE
+  by_cases h : r.length < 2 ^ 29
+  · simp [(sizeOk_iff _).mpr h]; omega
+  · have : sizeOk r.length = false := by
+      cases hs : sizeOk r.length
+      · rfl
+      · exact absurd ((sizeOk_iff _).mp hs) h
+    simp [this]; omega
+
+/-- the emitted bytes depend only on the records: the stream of a concatenated sequence is the
+concatenation of the streams (no hidden writer state) -/
+theorem C01_bytes_depend_only_on_records (rs₁ rs₂ : List Bytes) :
+    writeAll (rs₁ ++ rs₂) = writeAll rs₁ ++ writeAll rs₂ := by
+  induction rs₁ with
+  | nil => rfl
+  | cons r rs ih => simp [writeAll, ih]
+
 end DmlcModel.Props.C01
